@@ -121,7 +121,16 @@ class C17(Machine):
             elif k == "model":
                 op["cls"] = o.choice(("Network", "SpatialNetwork",
                                       "GeoNetwork"))
+                op["model"] = o.choice(("ErdosRenyi", "ErdosRenyi",
+                                        "BarabasiAlbert",
+                                        "BarabasiAlbert_igraph",
+                                        "Configuration"))
                 op["m"] = o.randrange(1, n * (n - 1) // 2)
+                op["each"] = o.randrange(1, max(2, n // 2))
+                deg = [o.randrange(0, n) for _ in range(n)]
+                if sum(deg) % 2:
+                    deg[0] += 1 if deg[0] < n - 1 else -1
+                op["deg"] = deg
             elif k == "rewire":
                 op["it"] = o.choice((1, 3, 10))
             elif k in ("geo1", "geo2", "geo3"):
@@ -280,22 +289,41 @@ class C17(Machine):
             return self._simple(C.call(Network.WattsStrogatz, n, op["k"],
                                        op["p"]), step, n)
         if k == "model":
-            kw = {"n_nodes": n, "n_links": op["m"], "silence_level": 3}
-            if op["cls"] == "Network":
-                net = C.call(Network.Model, "ErdosRenyi", **kw)
-            elif op["cls"] == "SpatialNetwork":
-                net = C.call(SpatialNetwork.Model, "ErdosRenyi", grid, **kw)
+            name = op.get("model", "ErdosRenyi")
+            want = None
+            if name == "ErdosRenyi":
+                kw = {"n_nodes": n, "n_links": op["m"], "silence_level": 3}
+                want = op["m"]
+            elif name == "BarabasiAlbert":
+                kw = {"n_nodes": n, "n_links_each": op["each"]}
+                want = op["each"] * (n - op["each"])
+            elif name == "BarabasiAlbert_igraph":
+                kw = {"n_nodes": n, "n_links_each": op["each"]}
             else:
-                net = C.call(GeoNetwork.Model, "ErdosRenyi", ggrid, **kw)
+                kw = {"degree": op["deg"]}
+            if op["cls"] == "Network":
+                net = C.call(Network.Model, name, **kw)
+            elif op["cls"] == "SpatialNetwork":
+                net = C.call(SpatialNetwork.Model, name, grid, **kw)
+            else:
+                net = C.call(GeoNetwork.Model, name, ggrid, **kw)
             if isinstance(net, C.Raised):
-                self._bad("raises", f"step {step}: {op['cls']}.Model raised "
-                                    f"{net!r}")
+                if name == "Configuration":
+                    R.undefined += 1
+                    return None
+                self._bad("raises", f"step {step}: {op['cls']}.Model("
+                                    f"{name}) raised {net!r}")
                 return None
             M = self._simple(net.adjacency, step, n)
-            if M is not None and M.sum() // 2 != op["m"]:
-                self._bad("link-count", f"step {step}: {op['cls']}.Model "
-                                        f"requested {op['m']} links, got "
-                                        f"{M.sum() // 2}")
+            if M is not None and want is not None and M.sum() // 2 != want:
+                self._bad("link-count", f"step {step}: {op['cls']}.Model("
+                                        f"{name}) documented {want} links, "
+                                        f"got {M.sum() // 2}")
+            if M is not None and name == "Configuration" and np.any(
+                    M.sum(axis=0) > np.array(op["deg"])):
+                self._bad("degree-exceeded",
+                          f"step {step}: {op['cls']}.Model(Configuration): "
+                          f"degrees {M.sum(axis=0)} exceed {op['deg']}")
             return M
         # ---------------- rewirings of the current network
         if k == "rewire":
